@@ -3,6 +3,7 @@
 EXTENDS Naturals, Sequences, FiniteSets, TLC, Json, Functions
 CONSTANTS ObsFile
 Obs == ndJsonDeserialize(ObsFile)
+\* runs are comparable when program AND options (tags) agree
 Runs(p) == {i \in DOMAIN Obs : Obs[i].program = p}
 ProgramsSeen == {Obs[i].program : i \in DOMAIN Obs}
 \* the reference digest of a program: the one of its first recorded run
